@@ -1,7 +1,8 @@
 // ovgen generates a Go build overlay for the go-storethehash tree at -repo:
 //
-//   - every non-test .go file that imports "os" or "sync" gets those imports
-//     aliased to the shim packages verifshim/vos and verifshim/vsync (the file
+//   - every non-test .go file that imports "os", "sync" or "path/filepath" gets
+//     those imports aliased to the shim packages verifshim/vos, verifshim/vsync
+//     and verifshim/vfilepath (the file
 //     body is untouched, line numbers are preserved);
 //   - every `for k, v := range m` over a map with an ordered key type is
 //     rewritten to iterate vhook.SortedKeys(m) (deterministic order owned by
@@ -47,11 +48,15 @@ type fileInfo struct {
 
 type report struct {
 	RewrittenSelect []string `json:"rewritten_selects"`
+	ChanPoints      []string `json:"channel_points_inserted"`
 	UnownedSelect   []string `json:"unowned_multiway_selects"`
 	Aliased         []string `json:"aliased_files"`
 	RewrittenRange  []string `json:"rewritten_map_ranges"`
 	UnownedRange    []string `json:"unowned_map_ranges"`
 	TypeErrors      int      `json:"type_errors_ignored"`
+	// UnownedImports: imports through which the code under test could reach
+	// the file system, the clock or other processes without passing the shims
+	UnownedImports []string `json:"unowned_environment_imports"`
 }
 
 type loader struct {
@@ -163,8 +168,81 @@ func (l *loader) rewriteSelect(fi *fileInfo, ss *ast.SelectStmt) {
 	l.rep.RewrittenSelect = append(l.rep.RewrittenSelect, where)
 }
 
+// selectRewritable reports whether rewriteSelect turns ss into SelectRecv (a
+// blocking multi-way select whose cases are all plain receives).
+func selectRewritable(ss *ast.SelectStmt) bool {
+	if len(ss.Body.List) < 2 {
+		return false
+	}
+	for _, c := range ss.Body.List {
+		cc := c.(*ast.CommClause)
+		if cc.Comm == nil {
+			return false
+		}
+		es, ok := cc.Comm.(*ast.ExprStmt)
+		if !ok {
+			return false
+		}
+		if ue, ok := es.X.(*ast.UnaryExpr); !ok || ue.Op != token.ARROW {
+			return false
+		}
+	}
+	return true
+}
+
+// chanPoints inserts vhook.ChanPoint(...) in front of every channel statement
+// of a statement list.
+func (l *loader) chanPoints(fi *fileInfo, info *types.Info, list []ast.Stmt) {
+	isRecv := func(e ast.Expr) bool {
+		ue, ok := e.(*ast.UnaryExpr)
+		return ok && ue.Op == token.ARROW
+	}
+	for _, st := range list {
+		what := ""
+		switch x := st.(type) {
+		case *ast.ExprStmt:
+			if isRecv(x.X) {
+				what = "recv"
+			} else if ce, ok := x.X.(*ast.CallExpr); ok && len(ce.Args) == 1 {
+				if id, ok := ce.Fun.(*ast.Ident); ok && id.Name == "close" {
+					if tv, ok := info.Types[ce.Args[0]]; !ok || tv.Type == nil {
+						what = "close"
+					} else if _, isChan := tv.Type.Underlying().(*types.Chan); isChan {
+						what = "close"
+					}
+				}
+			}
+		case *ast.SendStmt:
+			what = "send"
+		case *ast.AssignStmt:
+			if len(x.Rhs) == 1 && isRecv(x.Rhs[0]) {
+				what = "recv"
+			}
+		case *ast.SelectStmt:
+			if !selectRewritable(x) {
+				what = "select"
+			}
+		}
+		if what == "" {
+			continue
+		}
+		o := l.fset.Position(st.Pos()).Offset
+		fi.edits = append(fi.edits, edit{o, o, fmt.Sprintf("vhook.ChanPoint(%q); ", what)})
+		fi.needV = true
+		l.rep.ChanPoints = append(l.rep.ChanPoints, fmt.Sprintf("%s:%d %s", fi.rel, l.fset.Position(st.Pos()).Line, what))
+	}
+}
+
 func (l *loader) rewriteRanges(fi *fileInfo, info *types.Info) {
 	ast.Inspect(fi.ast, func(n ast.Node) bool {
+		switch b := n.(type) {
+		case *ast.BlockStmt:
+			l.chanPoints(fi, info, b.List)
+		case *ast.CaseClause:
+			l.chanPoints(fi, info, b.Body)
+		case *ast.CommClause:
+			l.chanPoints(fi, info, b.Body)
+		}
 		if ss, ok := n.(*ast.SelectStmt); ok {
 			l.rewriteSelect(fi, ss)
 			return true
@@ -312,10 +390,20 @@ func main() {
 						repl = modPath + "/verifshim/vos"
 					case `"sync"`:
 						repl = modPath + "/verifshim/vsync"
+					case `"path/filepath"`:
+						repl = modPath + "/verifshim/vfilepath"
+					case `"io/ioutil"`, `"os/exec"`, `"syscall"`, `"golang.org/x/sys/unix"`, `"io/fs"`, `"net"`, `"net/http"`, `"unsafe"`, `"sync/atomic"`:
+						// sync/atomic is listed for information only: atomics are
+						// not scheduling points of engine A (none in the pinned tree)
+						rep.UnownedImports = append(rep.UnownedImports, fi.rel+": "+strings.Trim(is.Path.Value, `"`))
+						continue
 					default:
 						continue
 					}
 					name := strings.Trim(is.Path.Value, `"`)
+					if i := strings.LastIndex(name, "/"); i >= 0 {
+						name = name[i+1:]
+					}
 					if is.Name != nil {
 						name = is.Name.Name
 					}
